@@ -162,6 +162,40 @@ claim(
     "call-graph reachability (who-may-reach) + def-use ordering + control-dependence of raise sites on database lookups + formatter call-site role table",
 )
 
+claim(
+    "C16",
+    "Clause level: exposure gate dominance in _call_procedure and a cross-check of every procedure name used by clients in the package "
+    "against the decorated handler methods; call-id pairing by def-use on server and both clients (register-before-send with no await after "
+    "the liveness check, resolve by popped id, sync id comparison); one done callback per task, one enqueue per callback, one outcome per "
+    "send-loop iteration; encoder/decoder agreement on field size, order and byte order with the size bound before every sized read; only "
+    "UsageError subclasses are reconstructed; EOF/reset map to a clean end. Behaviour under every byte-level fragmentation and completion "
+    "order is not decided.",
+    STATIC_TB,
+    "dominance on all paths + def-use of the call id + writer/reader table agreement + client/handler name cross-check",
+)
+
+claim(
+    "C19",
+    "Clause level: single source of the exit code (one assignment of Builder.returncode, serve's two returns); report_unbuilt is interpreted "
+    "over failed count x draining x sub-report codes (48 points) and must equal the definition of each bit, with the FAILED-step query "
+    "restricted to attached steps; partition structure of the pending report (primary keys, complement arm, distinct root kinds with "
+    "BLOCK_STEP largest, each kind consumed once, PendingOther fields = formatted buckets, universe = dispatch's); scratch tables "
+    "dropped in finally. That the attribution forest reaches every non-cyclic step for every leftover graph is not decided.",
+    STATIC_TB,
+    "finite-domain interpretation of the flag logic + catalogue facts + SQL text structure of the classification arms",
+)
+
+claim(
+    "C20",
+    "Clause level: static taint analysis in api.py (sources: path parameters; sanitiser: translate or the trailing-separator wrapper, with "
+    "the new step's workdir for inp/out/vol in step() and none elsewhere; sinks: arguments of get_rpc_client().call.<procedure>), "
+    "translate_back on paths handed back, no leading './' restored on label-bound flows, normalisation after every join on every path of "
+    "translate/translate_back, reserved environment variables = the ones assigned after the overrides, clean tool translates in and back. "
+    "The arithmetic of translate for all '..'/absolute/nested combinations is value-level and not decided.",
+    STATIC_TB,
+    "taint analysis (source/sanitiser/sink) by def-use + path enumeration for normalise-after-join + writer/reader table agreement",
+)
+
 _PENDING = "rules designed in DESIGN.md section 4 but not implemented yet in this session; no claim is made until the check exists"
-for _pid in ["C11", "C14", "C16", "C17", "C19", "C20"]:
+for _pid in ["C11", "C14", "C17"]:
     NOT_APPLICABLE[_pid] = _PENDING
